@@ -621,9 +621,28 @@ func c17step(ins inspector.StringsInspector, v *c17val, buf *inspector.ByteBuffe
 		d.track()
 		return c17err(detail, err) + "," + c17alias(c17overlap(v.ranges(), d.ranges())) + "," + d.print(detail)
 	case "R":
+		// a view of the sequence taken before the call (the header by value, as a caller that passed the sequence on keeps
+		// it) and a private copy of what it read: Reset TRUNCATES - the length changes, the items in the storage do not
+		oldS, oldP := v.ss, v.pp
+		snapS := append([]string(nil), v.ss...)
+		snapP := make([]string, len(v.pp))
+		for i := range v.pp {
+			snapP[i] = string(v.pp[i])
+		}
 		err := ins.Reset(v.arg())
 		v.track()
-		return c17err(detail, err)
+		out := c17err(detail, err)
+		for i := range oldS {
+			if oldS[i] != snapS[i] {
+				return out + ",items-wiped"
+			}
+		}
+		for i := range oldP {
+			if string(oldP[i]) != snapP[i] {
+				return out + ",items-wiped"
+			}
+		}
+		return out
 	case "B":
 		n, _ := strconv.Atoi(f[1])
 		buf.Bufferize(make([]byte, n))
